@@ -71,7 +71,10 @@ CACHE_RULE = ("Scenario: 1..4 targets, one stream task per target playing 4..60 
               "event-driven emulation on/off. After the run every target's operations are replayed through the reference model: "
               "result class, change-feed entries per operation, stored content and timestamps after every operation, feed replay == "
               "content, input immutability, retroactive mutation of delivered notifications, reset/remove clauses, counters. "
-              "Non-trivial: >= 3 operations judged.")
+              "Deletes inside multi notifications aim at existing leaves (this leaf, its parent, a sibling below the prefix, *). "
+              "Second phase in 30% of the C03/C14 runs: one Reset task per target raced against an admin task that removes and re-adds "
+              "the same targets; at quiescence feed replay == cache content (data leaves equal, no metadata leaf reported that the cache "
+              "does not store). Non-trivial: >= 3 operations judged.")
 for _p in ("C02", "C03", "C14", "C15"):
     CHECKS[_p] = {
         "pkgs": ["cacheh", "subscribeh"] if _p == "C14" else (["cacheh", "latencyh"] if _p == "C15" else ["cacheh"]),
@@ -87,8 +90,12 @@ SUB_RULE = ("Scenario: real cache + real subscribe.Server (generated gNMI stub o
             "window 0/1/2/8/64); 1..3 targets preloaded sequentially, then one writer task per target (updates, deletes, re-adds, Reset, "
             "Remove/Add, Sync/Connect) racing 1..4 subscribers (STREAM / ONCE / POLL, single target or *, globbed and origin-qualified "
             "path sets, updates_only) that start after a drawn number of scheduling points; readers can be slow or stall transiently or "
-            "for good (flow-control fault); optional ACL table. Phases: chaos to quiescence, fair drain, judgement, cancellation of every "
-            "RPC. Non-trivial: at least one response delivered and one cache change.")
+            "for good (flow-control fault), cancel their own RPC after n responses, idle for seconds or minutes between poll triggers, "
+            "join late, or come as twins with identical queries; targets' streams contain quiet periods of virtual time (so that writes "
+            "continue after send time-outs fired) and spare targets are removed and re-added over and over under all-targets "
+            "subscribers; optional ACL table. Besides the per-mode clauses: a subscriber that never stalled is never terminated by the "
+            "send timeout, and a ONCE/POLL call of a prompt reader ends without error. Phases: chaos to quiescence, fair drain, "
+            "judgement, cancellation of every RPC. Non-trivial: at least one response delivered and one cache change.")
 for _p in ("C04", "C05", "C07", "C08"):
     CHECKS[_p] = {
         "pkg": "subscribeh",
@@ -140,7 +147,8 @@ CHECKS["C13"] = {
             "sharing an endpoint, with global and per-target receive timeouts; 1..3 fault-actor tasks issuing Add / Remove / Reconnect / "
             "duplicate Add / unknown Remove / unknown Reconnect after drawn virtual waits (ns to a minute); retry base/max delay drawn per "
             "run, jitter off. Oracles: per-target callback automaton against what each scripted stream actually sent, silence after Remove "
-            "returned, refused calls, Remove returns (quiescence = deadlock oracle), retries never stop, back-off gap <= RetryMaxDelay, no "
+            "returned, refused calls, Remove returns (quiescence = deadlock oracle), retries never stop, a stream that fell silent under a positive "
+            "effective receive timeout (per-target override, else the manager's) is always timed out, back-off gap <= RetryMaxDelay, no "
             "goroutine left after removing everything. Non-trivial: at least one callback and one manager call.",
     "real": ["manager, connection (instrumented)", "generated gNMI client and server stubs", "cenkalti/backoff", "protobuf runtime"],
     "stub": ["gRPC transport and dialling (simgrpc)", "target endpoints (scripted by the harness)", "glog"],
@@ -182,7 +190,8 @@ CHECKS["C20"] = {
             "simulated stream with window 0/1/4/64. Two engines are built from the same configuration and run concurrently under the seeded "
             "scheduler. Oracles on what was handed to Send: reproducibility (the two sequences are identical), non-decreasing timestamps, "
             "repeat counts, value ranges and delta steps, timestamp steps, sync after the first emission of every value, target stamping, "
-            "virtual inter-message gaps equal timestamp gaps with delays on. Non-trivial: >= 2 messages.",
+            "virtual inter-message gaps equal timestamp gaps with delays on. POLL runs may replace the configuration (SetConfig) before the "
+            "first poll trigger; later passes are judged against the new one. Non-trivial: >= 2 messages.",
     "real": ["testing/fake/gnmi (Client engine), testing/fake/queue (instrumented)", "generated gNMI stubs", "protobuf runtime"],
     "stub": ["gRPC transport (simgrpc stream)"],
     "assumptions": ["numeric ranges far below 2^62 (the generator's Int63n(max-min+1) overflows beyond; an arithmetic limit of the test fake)",
